@@ -43,6 +43,7 @@ type c19pCase struct {
 	Signal string `json:"signal"`
 	Items  int    `json:"items"`
 	Result string `json:"result"` // same | fewer | more | skip | error
+	Tracing string `json:"tracing,omitempty"`
 }
 
 func c19pOut(c c19pCase) int {
@@ -61,8 +62,8 @@ func c19pOut(c c19pCase) int {
 func c19pRun(c c19pCase) (string, string) {
 	tt := componenttest.NewTelemetry()
 	defer func() { _ = tt.Shutdown(context.Background()) }()
-	set := processor.Settings{ID: component.MustNewID("vv"), TelemetrySettings: tt.NewTelemetrySettings(), BuildInfo: component.NewDefaultBuildInfo()}
-	ctx := context.Background()
+	set := processor.Settings{ID: component.MustNewID("vv"), TelemetrySettings: c19Tele(tt.NewTelemetrySettings(), c.Tracing), BuildInfo: component.NewDefaultBuildInfo()}
+	ctx := c19Ctx(c.Tracing)
 	forwarded := -1
 	var ferr error
 	if c.Result == "skip" {
@@ -181,7 +182,8 @@ func TestVerif(t *testing.T) {
 	for _, s := range []string{"logs", "traces", "metrics"} {
 		for _, n := range []int{0, 1, 3} {
 			for _, r := range []string{"same", "fewer", "more", "skip", "error"} {
-				c := c19pCase{s, n, r}
+			for _, tr := range c19TracingModes {
+				c := c19pCase{s, n, r, tr}
 				ctx.R.Evals++
 				ctx.R.Trans++
 				ctx.Nontrivial(vr.Hash(fmt.Sprint(c)))
@@ -192,6 +194,7 @@ func TestVerif(t *testing.T) {
 					ctx.R.Traces++
 				}
 				ctx.Sample(c)
+			}
 			}
 		}
 	}
